@@ -710,6 +710,177 @@ pub fn judge_fault_free(plan: &ClientPlan, run: &ClientRun) -> Judged {
     j
 }
 
+/// The part of the reference model that holds under ANY transport faults: the
+/// token map is tracked from the *results* the client returned (begin Ok opens,
+/// any accepted commit/cancel closes), so refusals without traffic, the field
+/// wiring of every request that reaches the terminal (retries included) and
+/// "no end-of-day while tokens are open" stay decidable.
+pub fn judge_under_faults(plan: &ClientPlan, run: &ClientRun) -> Judged {
+    let mut j = Judged {
+        v: vec![],
+        states: vec![],
+        stats: Stats::default(),
+    };
+    let log = run.log.lock().unwrap();
+    let pre = plan.cfg.pre_auth;
+    let cur = plan.cfg.currency as u64;
+    let max = plan.cfg.max_tx as usize;
+    let mut open: std::collections::BTreeSet<String> = Default::default();
+    for o in &run.ops {
+        match &o.result {
+            OpResult::Panic { loc, msg } => {
+                j.fail("*", "panic", panic_sig(loc, msg), format!("{} panicked at {loc}: {msg}", o.name));
+                return j;
+            }
+            OpResult::Hang => return j, // C10's business
+            _ => {}
+        }
+    }
+    let all_reqs: Vec<ReqLog> = run.pt.lock().unwrap().requests.clone();
+    // receipts the terminal offered for reservations carrying a given reference
+    let offered = |tok: &[u8]| -> Vec<u16> {
+        all_reqs
+            .iter()
+            .filter(|r| r.pkt.as_ref().map(|p| p.cf == (0x06, 0x22) && token_of(p).map(|t| t.1 == tok).unwrap_or(false)).unwrap_or(false))
+            .filter_map(|r| r.offered_receipt)
+            .collect()
+    };
+    for o in run.ops.iter().filter(|o| o.index >= 0) {
+        let op = &plan.ops[o.index as usize];
+        let name = op.name();
+        let reqs: Vec<&ReqLog> = all_reqs.iter().filter(|r| r.op == o.index).collect();
+        let traffic = log.entries[o.log_from.min(log.entries.len())..o.log_to.min(log.entries.len())].iter().any(is_traffic);
+        let pk: Vec<&Pkt> = reqs.iter().filter_map(|r| r.pkt.as_ref()).collect();
+        match op {
+            OpSpec::Begin { token, .. } => {
+                let refused = open.len() == max || open.contains(token);
+                if refused {
+                    j.stats.hit("probe.begin_refused");
+                    if traffic {
+                        j.fail("C07", "refused_call_traffic", "begin", format!("begin({token:?}) must be refused (open: {:?}, max {max}) but caused traffic", open));
+                    }
+                    if !matches!(&o.result, OpResult::Err { kind: ErrKind::ActiveTransaction(_), .. }) {
+                        j.fail("C07", "refused_call_result", "begin", format!("begin({token:?}) on an open token / at the limit returned {}", o.result.class()));
+                    }
+                    continue;
+                }
+                match &o.result {
+                    OpResult::Ok(_) => {
+                        open.insert(token.clone());
+                    }
+                    OpResult::Err { kind: ErrKind::ActiveTransaction(_), .. } => {
+                        j.fail("C07", "accepted_call_refused", "begin", format!("begin({token:?}) refused although the token is not open and {} < {max} are open", open.len()));
+                    }
+                    _ => {}
+                }
+                let tok = cp437(token).unwrap_or_default();
+                for p in pk.iter().filter(|p| p.cf == (0x06, 0x22)) {
+                    let okf = p.get_bcd(0x04) == Some(pre) && p.get_bcd(0x49) == Some(cur) && p.get_byte(0x19) == Some(0x40) && token_of(p) == Some((b"AC".to_vec(), tok.clone()));
+                    if !okf {
+                        j.fail("C08", "reservation_fields", "begin", format!("a Reservation sent by begin({token:?}) does not carry amount {pre}, currency {cur}, payment type 40 and reference AC/{token:?}"));
+                    }
+                }
+                if pk.iter().any(|p| matches!(p.cf, (0x06, 0x23) | (0x06, 0x25) | (0x06, 0x50))) {
+                    j.fail("C07", "begin_request", "begin", "begin sent a reversal or end-of-day");
+                }
+            }
+            OpSpec::Commit { token, .. } | OpSpec::Cancel { token, .. } => {
+                let is_commit = matches!(op, OpSpec::Commit { .. });
+                if !open.contains(token) {
+                    j.stats.hit("probe.unknown_token_refused");
+                    if traffic {
+                        j.fail("C07", "refused_call_traffic", name, format!("{name}({token:?}) on a token that is not open caused traffic"));
+                    }
+                    match &o.result {
+                        OpResult::Err { kind: ErrKind::UnknownToken(t), .. } if t == token => {}
+                        other => j.fail("C07", "refused_call_result", name, format!("{name}({token:?}) on a token that is not open returned {}", other.class())),
+                    }
+                    continue;
+                }
+                open.remove(token);
+                if let OpResult::Err { kind: ErrKind::UnknownToken(_), .. } = &o.result {
+                    j.fail("C07", "accepted_call_refused", name, format!("{name}({token:?}) refused although begin({token:?}) had returned Ok and the token was never closed"));
+                    continue;
+                }
+                let tok = cp437(token).unwrap_or_default();
+                let mine = offered(&tok);
+                let dangling: Vec<u16> = reqs.iter().filter_map(|r| r.dangling_reported).collect();
+                let want_cf = if is_commit { (0x06, 0x23) } else { (0x06, 0x25) };
+                let mut own_receipts: Vec<u64> = vec![];
+                for p in pk.iter() {
+                    let raw = p.get(0x87).map(|v| v.to_vec());
+                    if p.cf == (0x06, 0x23) && raw.as_deref() == Some(&[0xff, 0xff]) {
+                        continue;
+                    }
+                    if p.cf == (0x06, 0x23) || p.cf == (0x06, 0x25) {
+                        let r = p.get_bcd(0x87).unwrap_or(u64::MAX);
+                        let is_own = p.cf == want_cf && !dangling.contains(&(r as u16));
+                        if is_own || p.cf == (0x06, 0x23) {
+                            own_receipts.push(r);
+                            if !mine.contains(&(r as u16)) {
+                                j.fail("C07", "reversal_receipt", name, format!("{name}({token:?}) acts on receipt {r}, which the terminal never offered for a reservation with that reference (offered: {:?})", mine));
+                            }
+                        } else if !dangling.contains(&(r as u16)) {
+                            j.fail("C07", "foreign_receipt", name, format!("{name}({token:?}) reversed receipt {r}, neither its own nor reported as dangling"));
+                        }
+                        if p.cf == (0x06, 0x23) {
+                            let OpSpec::Commit { amount, .. } = op else { continue };
+                            let want = (pre as u128).saturating_sub(*amount as u128) as u64;
+                            let okf = p.get_bcd(0x04) == Some(want) && p.get_bcd(0x49) == Some(cur) && p.get_byte(0x19) == Some(0x40) && token_of(p) == Some((b"AC".to_vec(), tok.clone()));
+                            if !okf {
+                                j.fail("C08", "commit_fields", if p.get_bcd(0x04) != Some(want) { "commit/amount" } else { "commit/other" }, format!("a PartialReversal of commit({token:?}, {amount}) must release {want} in currency {cur} with reference AC/{token:?}"));
+                            }
+                        } else if p.get_bcd(0x49) != Some(cur) || p.get_byte(0x19) != Some(0x40) {
+                            j.fail("C08", "cancel_fields", "cancel", "a PreAuthReversal without the configured currency / payment type 40");
+                        }
+                    }
+                }
+                own_receipts.dedup();
+                if own_receipts.len() > 1 {
+                    j.fail("C07", "reversal_receipt", name, format!("{name}({token:?}) used different receipt numbers across its attempts: {:?}", own_receipts));
+                }
+                if !open.is_empty() && pk.iter().any(|p| p.cf == (0x06, 0x50) || (p.cf == (0x06, 0x23) && p.get(0x87) == Some(&[0xff, 0xff][..]))) {
+                    j.fail("C19", "eod_over_open", name, format!("{} transaction(s) still open, yet {name} ran the clean-up / end-of-day", open.len()));
+                }
+            }
+            OpSpec::Configure { .. } => {
+                // configure wipes the map once it reaches the clean-up; from the results alone we
+                // cannot know how far it got under faults: stop judging map-dependent rules
+                if pk.iter().any(|p| p.cf == (0x06, 0x23) || p.cf == (0x06, 0x50)) || !o.result.is_ok() {
+                    return j;
+                }
+            }
+            OpSpec::ReadCard { card } => {
+                // whatever the transport does, a card is never classified wrongly
+                let want = card_expect(&card.kind);
+                let bad = match (&o.result, &want) {
+                    (OpResult::Ok(OkVal::Bank), CardExpect::Bank | CardExpect::BankOrErr) => false,
+                    (OpResult::Ok(OkVal::Membership(m)), CardExpect::Membership(w)) => m != w,
+                    (OpResult::Ok(_), _) => true,
+                    (OpResult::Err { kind: ErrKind::NoCardPresented, .. }, CardExpect::NoCard) => false,
+                    (OpResult::Err { kind: ErrKind::NoCardPresented, .. }, _) => true,
+                    _ => false,
+                };
+                if bad {
+                    j.fail("C18", "card_identity", "under_faults", format!("status data {:?} must classify as {:?} (or fail), read_card returned {}", card.kind, want, match &o.result {
+                        OpResult::Ok(v) => format!("Ok({:?})", v),
+                        other => other.class(),
+                    }));
+                } else if o.result.is_ok() {
+                    j.stats.hit("probe.card_classified_after_retry");
+                }
+            }
+        }
+        let mut h = Hasher64::default();
+        h.u64(max as u64);
+        for t in &open {
+            h.str(t);
+        }
+        j.states.push(h.finish());
+    }
+    j
+}
+
 /// Shape of a run for the "distinct" measure: per call (name, result class, control fields sent).
 pub fn shape_of(plan: &ClientPlan, run: &ClientRun) -> u64 {
     let mut h = Hasher64::default();
